@@ -9,6 +9,7 @@ import ClairModel.Model.RpmPkg
 import ClairModel.Model.GoBin
 import ClairModel.Model.Jar
 import ClairModel.Model.DistScan
+import ClairModel.Model.RhelRepo
 
 namespace Driver.C02
 open ClairModel.Bytes ClairModel.Rfc822 ClairModel
@@ -142,6 +143,43 @@ def showDistRes : DistScan.Res → String
   | .none => "none"
   | .dist d => "dist " ++ ",".intercalate [hexB d.name, hexB d.did, hexB d.version, hexB d.versionId, hexB d.codeName, hexB d.prettyName, hexB d.cpe]
 
+/-- `m:<repo>=<cpe>:<0|1>,…` -/
+def parseRepoMap (w : String) : Option (Bytes × List (Bytes × Bool)) :=
+  match (String.ofList (w.toList.drop 2)).splitOn "=" with
+  | [r, cs] =>
+    match toBytes r with
+    | none => none
+    | some r =>
+      let items := if cs == "" then [] else cs.splitOn ","
+      (items.mapM fun (it : String) => match it.splitOn ":" with
+        | [c, v] => (toBytes c).map fun c => (c, v == "1")
+        | _ => none).map fun l => (r, l)
+  | _ => none
+
+/-- `f:<dir>:<name>:<kind>:<repo>,…` -/
+def parseRepoManifest (w : String) : Option RhelRepo.Manifest :=
+  match w.splitOn ":" with
+  | ["f", d, n, k, rs] =>
+    match d.toNat?, toBytes n with
+    | some d, some n =>
+      if k == "syntax" then some ⟨d, n, .syntaxError⟩
+      else if k == "type" then some ⟨d, n, .otherError⟩
+      else
+        let items := if rs == "" then [] else rs.splitOn ","
+        (items.mapM toBytes).map fun l => ⟨d, n, .sets l⟩
+    | _, _ => none
+  | _ => none
+
+def repoAnswer (ws : List String) : String :=
+  let ms := ws.filter (·.startsWith "m:")
+  let fs := ws.filter (·.startsWith "f:")
+  match ms.mapM parseRepoMap, fs.mapM parseRepoManifest with
+  | some m, some f =>
+    match RhelRepo.scan m f with
+    | .err => "err"
+    | .repos cs => let l := sortStrings (cs.map hexB); " ".intercalate (s!"ok {l.length}" :: l)
+  | _, _ => "bad-op"
+
 def showErr : Err → String
   | .ok => "nil"
   | .eof => "eof"
@@ -205,6 +243,7 @@ def answer (l : String) : String :=
   | ["ubudist", a, b] => match optFile a, optFile b with
       | some a, some b => showDistRes (DistScan.ubuntuScan a b)
       | _, _ => "bad-op"
+  | "rhelrepo" :: ws => repoAnswer ws
   | ["reset"] => "ok"
   | _ => "bad-op"
 
